@@ -7,8 +7,11 @@ import (
 	"context"
 	"encoding/hex"
 	"fmt"
+	"runtime"
 	"sort"
 	"strings"
+	"sync"
+	"sync/atomic"
 	"testing"
 
 	"github.com/spikeekips/mitum/base"
@@ -479,9 +482,40 @@ func (x *c38qRun) apply(ev string, check bool) (vios []c38qVio) {
 	return vios
 }
 
-type c38qState struct {
-	path []string
-	mine bool
+type c38qResult struct {
+	key  string
+	vios []c38qVio
+	obs  string
+}
+
+// c38qParallel runs f(0..n-1) on GOMAXPROCS workers.
+func c38qParallel(n int, f func(int)) {
+	w := runtime.GOMAXPROCS(0)
+	if w > n {
+		w = n
+	}
+
+	var wg sync.WaitGroup
+	next := int64(-1)
+
+	for k := 0; k < w; k++ {
+		wg.Add(1)
+
+		go func() {
+			defer wg.Done()
+
+			for {
+				i := int(atomic.AddInt64(&next, 1))
+				if i >= n {
+					return
+				}
+
+				f(i)
+			}
+		}()
+	}
+
+	wg.Wait()
 }
 
 func TestVerifC38(t *testing.T) {
@@ -506,111 +540,121 @@ func TestVerifC38(t *testing.T) {
 	r.Assume("getOperations is TempPool.OperationHashes with an accept-all filter (launch adds database-dependent filters; C22 covers filters)")
 	r.Assume("the 'added at' nanosecond clock is strictly increasing between two SetOperation calls (spun and verified)")
 
-	const sharedLevels = 2
+	if sh, nsh := r.Shard(); nsh > 1 && sh > 0 {
+		// the searches are parallel inside one process (global state dedup needs shared memory);
+		// with several shards configured only shard 0 works
+		r.Outcome("idle-shard")
 
-	var owner int
+		return
+	}
+
+	_, replaying := r.Replaying()
+
+	// Level-synchronous BFS. The histories of one chunk run in parallel (each on its own fresh
+	// maker and pool); their results are merged sequentially in (state, event) order, so the
+	// outcome is exactly that of a sequential BFS and independent of scheduling.
+	const chunkStates = 256
 
 	for _, limit := range []uint64{10, 2} {
 		sid := fmt.Sprintf("l%d", limit)
 		seen := map[string]bool{}
 
-		run := func(path []string) (string, []c38qVio, string) {
+		run := func(path []string) (res c38qResult) {
 			x := env.newRun(limit)
 			defer x.close()
 
-			var vios []c38qVio
 			for k, ev := range path {
-				vios = x.apply(ev, k == len(path)-1)
+				res.vios = x.apply(ev, k == len(path)-1)
 			}
 
-			return x.key(), vios, x.obs
+			res.key, res.obs = x.key(), x.obs
+
+			return res
 		}
 
-		owner++
-		root := c38qState{mine: r.Mine(owner)}
 		{
-			k, _, _ := run(nil)
+			k := run(nil).key
 			seen[k] = true
-
-			if root.mine {
-				r.State(sid + "#" + k)
-			}
+			r.State(sid + "#" + k)
 		}
 
-		frontier := []c38qState{root}
+		frontier := [][]string{nil}
 
 	levels:
 		for level := 0; level < depth; level++ {
-			var next []c38qState
+			var next [][]string
 
-			for _, st := range frontier {
-				if level >= sharedLevels && !st.mine {
-					continue
+			for c0 := 0; c0 < len(frontier); c0 += chunkStates {
+				c1 := c0 + chunkStates
+				if c1 > len(frontier) {
+					c1 = len(frontier)
 				}
 
 				if r.Expired() {
-					r.Cap(fmt.Sprintf("deadline in search %s at level %d", sid, level))
+					r.Cap(fmt.Sprintf("deadline in search %s at level %d, state %d/%d", sid, level, c0, len(frontier)))
 
 					break levels
 				}
 
-				for _, ev := range env.evs {
-					path := append(append([]string{}, st.path...), ev)
-					id := sid + "/" + strings.Join(path, "/")
+				type job struct {
+					path []string
+					id   string
+				}
 
-					if !r.WantPrefix(id) {
-						continue
+				var jobs []job
+
+				for _, st := range frontier[c0:c1] {
+					for _, ev := range env.evs {
+						path := append(append([]string{}, st...), ev)
+						id := sid + "/" + strings.Join(path, "/")
+
+						if !r.WantPrefix(id) {
+							continue
+						}
+
+						jobs = append(jobs, job{path, id})
 					}
+				}
 
-					key, vios, obs := run(path)
+				results := make([]c38qResult, len(jobs))
+				c38qParallel(len(jobs), func(i int) { results[i] = run(jobs[i].path) })
 
-					account := st.mine
-					if _, replaying := r.Replaying(); replaying {
-						account = r.Want(id)
-					}
+				for i, j := range jobs {
+					res, ev := results[i], j.path[len(j.path)-1]
 
-					if account {
+					if !replaying || r.Want(j.id) { // in a replay only the recorded case reports
 						r.Transition()
 						r.Trace()
 						r.Eval()
-						r.Outcome(obs)
-						r.Max("max_depth", int64(len(path)))
+						r.Outcome(res.obs)
+						r.Max("max_depth", int64(len(j.path)))
 
-						if strings.Contains(obs, ":again") || c38qTwoOfOneFact(env, st.path, ev) {
-							r.Nontrivial(id)
+						if strings.Contains(res.obs, ":again") || c38qTwoOfOneFact(env, j.path[:len(j.path)-1], ev) {
+							r.Nontrivial(j.id)
 						}
 
-						for _, v := range vios {
+						for _, v := range res.vios {
 							r.Outcome("violation:" + fmt.Sprint(v.sig["kind"]))
-							r.Violation(id, v.sig, v.detail, map[string]any{"search": sid, "events": path})
+							r.Violation(j.id, v.sig, v.detail, map[string]any{"search": sid, "events": j.path})
 						}
 					}
 
-					if seen[key] {
+					if seen[res.key] {
 						continue
 					}
 
-					seen[key] = true
+					seen[res.key] = true
 
-					child := c38qState{path: path}
-					if level+1 <= sharedLevels {
-						owner++
-						child.mine = r.Mine(owner)
-					} else {
-						child.mine = st.mine
+					if r.State(sid+"#"+res.key) && len(j.path) == 3 && (ev[0] == 'M' || ev[0] == 'E') {
+						r.Sample(map[string]any{"search": sid, "history": strings.Join(j.path, "/"), "state": res.key, "last_observation": res.obs})
 					}
 
-					if child.mine {
-						if r.State(sid+"#"+key) && len(path) == 3 && (ev[0] == 'M' || ev[0] == 'E') {
-							r.Sample(map[string]any{"search": sid, "history": strings.Join(path, "/"), "state": key, "last_observation": obs})
-						}
-					}
-
-					next = append(next, child)
+					next = append(next, j.path)
 				}
 			}
 
 			frontier = next
+			r.Add(fmt.Sprintf("new_states_%s_depth_%d", sid, level+1), int64(len(frontier)))
 		}
 	}
 }
